@@ -127,9 +127,26 @@ def cases(tier, rng, run):
             out.append(Case(f"SYM\t{o}({bad})\ta:2;b:3", "badoperand"))
             out.append(Case(f"SYM\tadd(a,{o}({bad}))\ta:2;b:3", "badoperand"))
             out.append(Case(f"SYM\tmul({o}({bad}),2)\ta:2;b:3", "badoperand"))
+    # two failures in one expression: every operation object is constructed (operands checked) before anything is printed, so
+    # the refusal wins over a division by a literal zero / a negative power elsewhere, on either side and at any depth
+    for bad in ["const(k,3)", "anon(batch)", "anon()"]:
+        for boom in ["div(1,0)", "div(a,div(2,0))", "grp(div(3,0))", "isqrt(div(1,0))", "exp(2,sub(0,1))"]:
+            for o in ["add", "sub", "mul", "div", "exp", "min", "max"]:
+                out.append(Case(f"SYM\t{o}({boom},{bad})\ta:2;b:3", "badoperand"))
+                out.append(Case(f"SYM\t{o}({bad},{boom})\ta:2;b:3", "badoperand"))
+                out.append(Case(f"SYM\t{o}({boom},grp(mul(a,{bad})))\ta:2;b:3", "badoperand"))
+                out.append(Case(f"SYM\tadd({o}({boom},b),isqrt({bad}))\ta:2;b:3", "badoperand"))
+    for _ in range(300 if tier == "quick" else 5000):
+        t = rand_tree(rng, rng.randint(2, 5))
+        bad = rng.choice(["const(k,3)", "anon(batch)", "anon()"])
+        atoms = [m for m in impl_sym.TOK.finditer(t) if m.group(0) in ATOMS]
+        if atoms and "(" in t:  # (an axis on its own is not arithmetic)
+            m = rng.choice(atoms)
+            out.append(Case(f"SYM\t{t[:m.start()]}{bad}{t[m.end():]}\ta:2;b:3", "badoperand"))
     # whole shapes: several entries, markers, constant axes; the annotation built from Shape[...] must be the one built
     # from the printed string (compared with the model's parse of the model's print)
-    entries = ["a", "b", "3", "...", "anon(batch)", "const(k,3)", "add(a,1)", "mul(a,b)", "min(a,b)", "grp(sub(a,1))", "isqrt(a)", "div(a,2)"]
+    entries = ["a", "b", "3", "...", "anon(batch)", "const(k,3)", "add(a,1)", "mul(a,b)", "min(a,b)", "grp(sub(a,1))", "isqrt(a)", "div(a,2)",
+               "div(1,0)", "add(a,const(k,3))", "grp(anon())"]
     for _ in range(1500 if tier == "quick" else 20000):
         k = rng.randint(1, 4)
         out.append(Case("SYMSHAPE\t" + ";".join(rng.choice(entries) for _ in range(k)), "shape"))
